@@ -64,17 +64,17 @@ type c12Event struct {
 
 // c12World is the lake plus what is known about its pre-state.
 type c12World struct {
-	eng      *store.Engine
-	poolID   ksuid.KSUID
-	objs     []ksuid.KSUID              // objects of main before the run, sorted
-	objVals  map[ksuid.KSUID][]int      // value ids per object
-	preMain  []ksuid.KSUID              // main's chain before the run (tip first)
-	preB1    []ksuid.KSUID
-	preIDs   map[string][]int           // branch → value ids before the run
-	loadOf   map[ksuid.KSUID][]int      // pre-state load commits → ids (for revert)
-	b1Extra  []int                      // ids only on b1 (merge adds these)
-	qID      string
-	clock    atomic.Int64
+	eng     *store.Engine
+	poolID  ksuid.KSUID
+	objs    []ksuid.KSUID         // objects of main before the run, sorted
+	objVals map[ksuid.KSUID][]int // value ids per object
+	preMain []ksuid.KSUID         // main's chain before the run (tip first)
+	preB1   []ksuid.KSUID
+	preIDs  map[string][]int      // branch → value ids before the run
+	loadOf  map[ksuid.KSUID][]int // pre-state load commits → ids (for revert)
+	b1Extra []int                 // ids only on b1 (merge adds these)
+	qID     string
+	clock   atomic.Int64
 }
 
 func idsVals(ids ...int) []string {
